@@ -83,6 +83,47 @@ theorem positions_contig (off : Nat) (sh : Shape) :
   rw [dot_cstrides_unravel sh i hi']
   omega
 
+/-! ### Fortran order is the transpose of C order -/
+
+theorem size_append_single (s : Shape) (n : Nat) : size (s ++ [n]) = size s * n := by
+  induction s with
+  | nil => simp [size]
+  | cons m s ih => rw [List.cons_append, size_cons, size_cons, ih, Nat.mul_assoc]
+
+theorem cstrides_append_single (s : Shape) (n : Nat) :
+    cstrides (s ++ [n]) = (cstrides s).map (· * n) ++ [1] := by
+  induction s with
+  | nil => simp [cstrides, size]
+  | cons m s ih =>
+    simp only [List.cons_append, cstrides, List.map_cons, ih, size_append_single]
+
+theorem fstridesFrom_mul (acc : Nat) (s : Shape) :
+    fstridesFrom acc s = (fstridesFrom 1 s).map (acc * ·) := by
+  induction s generalizing acc with
+  | nil => rfl
+  | cons n s ih =>
+    simp only [fstridesFrom, List.map_cons, Nat.mul_one, Nat.one_mul]
+    rw [ih (acc * n), ih n]
+    simp [List.map_map, Function.comp_def, Nat.mul_assoc]
+
+/-- **fstrides_eq_reverse_cstrides.**  The column-major strides of a shape are the row-major strides of
+the reversed shape, reversed. -/
+theorem fstrides_eq_reverse_cstrides (s : Shape) : fstrides s = (cstrides s.reverse).reverse := by
+  induction s with
+  | nil => rfl
+  | cons n s ih =>
+    have h1 : fstrides (n :: s) = 1 :: (fstrides s).map (n * ·) := by
+      simp only [fstrides, fstridesFrom, Nat.one_mul]
+      rw [fstridesFrom_mul n s]
+    rw [h1, ih, List.reverse_cons, cstrides_append_single]
+    simp [List.map_reverse, Nat.mul_comm]
+
+/-- **fortran_is_transposed_c.**  A Fortran-ordered array *is* the `.T` of the C-ordered array of the reversed
+shape on the same buffer: every fact about C-contiguous windows and transposes transfers to it. -/
+theorem fortran_is_transposed_c (off : Nat) (s : Shape) :
+    (⟨off, s, (fstrides s).map Int.ofNat⟩ : Desc) = (Desc.contig off s.reverse).T := by
+  simp [Desc.T, Desc.contig, fstrides_eq_reverse_cstrides, List.map_reverse]
+
 end MG.ND
 
 namespace MG.Eng
